@@ -193,8 +193,45 @@ fn enum_case(max: u32, mut idx: u64) -> Option<ProgCase> {
     })
 }
 
+/// A checksum text whose digest contains an arbitrary scalar value, given to the builder as a plain
+/// qualifier (after other qualifiers, so that it is not the first thing `build()` looks at).
+fn scalar_digest_case(idx: u64) -> Option<ProgCase> {
+    let c = char::from_u32((idx / 2) as u32)?;
+    if c == ',' {
+        return None;
+    }
+    let value = if idx % 2 == 0 { format!("sha1:00{c}{c}") } else { format!("md5:0a,sha1:{c}0") };
+    let ops = vec![
+        crate::buildprog::Op::Qualifier("arch".into(), "x".into()),
+        crate::buildprog::Op::Qualifier("Checksum".into(), value),
+        crate::buildprog::Op::Version("1".into()),
+    ];
+    Some(ProgCase { program: Program { ty: "t".into(), name: "n".into(), ops }, typed: false, perm: vec![] })
+}
+
 pub fn sections() -> Vec<Box<dyn Section>> {
     vec![
+        Box::new(Enumerated {
+            name: "typed-names-over-length-changing-case-letters".into(),
+            total: Box::new(|t: Tier| 2 * crate::props::c10::names_total(crate::chars::length_changing_alphabet(), t.pick(3, 4))),
+            make: Box::new(|t: Tier, i| {
+                let a = crate::chars::length_changing_alphabet();
+                let n = crate::props::c10::names_total(a, t.pick(3, 4));
+                let name = crate::props::c10::name_from_index(a, t.pick(3, 4), i % n);
+                Some(ProgCase { program: Program { ty: ["pypi", "nuget"][(i / n) as usize].into(), name, ops: vec![] }, typed: true, perm: vec![] })
+            }),
+            oracle: o_case,
+            required: vec![],
+            complete: true,
+        }),
+        Box::new(Enumerated {
+            name: "checksum-digest-with-every-scalar".into(),
+            total: Box::new(|_| 2 * 0x110000u64),
+            make: Box::new(|_, i| scalar_digest_case(i)),
+            oracle: o_case,
+            required: vec![],
+            complete: true,
+        }),
         Box::new(Enumerated {
             name: "programs-exhaustive".into(),
             total: Box::new(|t: Tier| enum_total(t.pick(3, 4))),
